@@ -324,7 +324,11 @@ impl World {
 				self.out.bump("probe:restart_sync_from_a_block_no_longer_in_the_chain");
 				let on_chain: std::collections::HashSet<bitcoin::BlockHash> =
 					(0..=tip).map(|h| self.chain.block_at(h).header.block_hash()).collect();
-				let fork_h = best.height.min(tip).saturating_sub(6);
+				// the exact fork point (the model remembers the headers of vanished blocks)
+				let fork_h = self
+					.chain
+					.fork_height_of(&best.block_hash)
+					.unwrap_or_else(|| best.height.min(tip).saturating_sub(5));
 				let fork_header = self.chain.block_at(fork_h).header;
 				let r = catch(|| {
 					for (txid, _h, bh) in m.get_relevant_txids() {
@@ -381,7 +385,10 @@ impl World {
 			use lightning::chain::Confirm;
 			let on_chain: std::collections::HashSet<bitcoin::BlockHash> =
 				(0..=tip).map(|h| self.chain.block_at(h).header.block_hash()).collect();
-			let fork_h = best.height.min(tip).saturating_sub(6);
+			let fork_h = self
+				.chain
+				.fork_height_of(&best.block_hash)
+				.unwrap_or_else(|| best.height.min(tip).saturating_sub(5));
 			let fork_header = self.chain.block_at(fork_h).header;
 			let r = catch(|| {
 				for (txid, _h, bh) in mgr.get_relevant_txids() {
